@@ -87,9 +87,9 @@ def _cond_decl(b, kind, Rc, Dy, Dx, semi):
         else:
             b.spd("c_S", 1, Dy)
         if "M" in semi:
-            b.const("c_u", b.rat_array((1, 1), nonzero=True)); b.const("c_P", b.rat_array((1, Dy * (Dx + 1)), nonzero=True))
+            b.const("c_u", b.rat_array((Rc, 1), nonzero=True)); b.const("c_P", b.rat_array((1, Dy * (Dx + 1)), nonzero=True))
         else:
-            b.free("c_u", (1, 1)); b.free("c_P", (1, Dy * (Dx + 1)))
+            b.free("c_u", (Rc, 1)); b.free("c_P", (1, Dy * (Dx + 1)))
         if "nnq" in semi:
             b.free("c_q", (Dy * (Dx + 1),))
         else:
